@@ -189,6 +189,9 @@ class Env:
         self.loop_errors = []
         self.excs = shared["excs"]
         self.rc_calls = 0
+        self.final = (0, None)
+        self.extra_refs = []
+        self.device_collected = None
 
         Recorder, PushRecorder, DummyRC, DummyFeatures, DummyPush = shared["classes"]
 
@@ -266,6 +269,45 @@ class Env:
                 if probe() is not None:      # CPython frees it by reference count; be safe elsewhere
                     gc.collect()
 
+    # -- what the user still holds -------------------------------------------------------
+    def snapshot(self):
+        """(calls_made, _pending_tasks) of the device object (kept from before it was dropped)"""
+        if self.atv is not None:
+            self.final = (self.atv.calls_made, self.atv._pending_tasks)
+        return self.final
+
+    def refetch(self):
+        """fetch the interface objects again through the device object's properties (after the
+        sequence); anything obtained that is not the object held from before is kept as well"""
+        extra = []
+        ifaces = list(self.atv._interfaces.keys()) if self.atv is not None else []
+        for m, row in enumerate(self.shared["table"]["members"]):
+            if row["obj"] != 0 or not row["is_property"]:
+                continue
+            try:
+                got = getattr(self.atv, row["name"])
+            except Exception:
+                continue
+            for j, key in enumerate(ifaces, 1):
+                if isinstance(got, key) and got is not self.held[j]:
+                    extra.append((j, got))
+        self.extra_refs = extra
+
+    def drop_device(self):
+        """the user drops every reference to the device object and keeps the interface objects
+        (`self.atv = None` in a disconnect handler is the usual pattern); the harness lets go
+        of it too, so that it is really collected"""
+        import weakref
+
+        self.snapshot()
+        probe = weakref.ref(self.atv)
+        self.atv = None
+        self.held[0] = None
+        self.reporter_objs = []          # the real connection objects hold the device listener
+        if probe() is not None:          # CPython frees it by reference count unless it sits in a cycle
+            gc.collect()
+        self.device_collected = probe() is None
+
     # -- calls ---------------------------------------------------------------------------
     def report(self, i, tok):
         """protocol i evaluates device_listener.listener.<method>(...) for report token `tok`"""
@@ -309,6 +351,8 @@ class Env:
 
         row = self.shared["table"]["members"][m]
         obj = self.held[row["obj"]]
+        if obj is None:
+            return "gone"
         try:
             if row["is_property"]:
                 getattr(obj, row["name"])
@@ -344,6 +388,11 @@ class Env:
         from pyatv.exceptions import BlockedStateError
         from pyatv.interface import Playing
 
+        if tok == "x":
+            self.drop_device()
+            return "-"
+        if self.atv is None and (tok[0] == "r" or tok == "u"):
+            return "gone"
         if tok[0] == "r":
             try:
                 self.report(int(tok[1]), tok[2:])
@@ -378,12 +427,14 @@ class Env:
             return "d1" if self.pushed > before else "d0"
         raise ValueError(tok)
 
-    async def call_member(self, m):
-        """-> 'blocked' | 'pass' | 'pass:<ExceptionClass>'"""
+    async def call_member(self, m, via=None):
+        """-> 'blocked' | 'pass' | 'pass:<ExceptionClass>' | 'gone' (the object is no longer held)"""
         from pyatv.exceptions import BlockedStateError
 
         row = self.shared["table"]["members"][m]
-        obj = self.held[row["obj"]]
+        obj = self.held[row["obj"]] if via is None else via
+        if obj is None:
+            return "gone"
         try:
             if row["is_property"]:
                 getattr(obj, row["name"])
@@ -449,7 +500,7 @@ async def run_case(shared, case):
         if out.startswith("pass:"):
             api_classes.append(out[5:])
         # ---- direct oracle, per event
-        if tok[0] == "a" and was and short != "blocked":
+        if tok[0] == "a" and was and short not in ("blocked", "gone"):
             name = members[int(tok[1:])]
             if name["kind"] != "closeExempt":
                 problems.append(("api-not-blocked:%s.%s" % (name["iface"], name["name"]),
@@ -468,11 +519,32 @@ async def run_case(shared, case):
                 bits.append("0")
                 continue
             r = await env.call_member(m)
-            bits.append("1" if r == "blocked" else "0")
-            if r != "blocked":
+            bits.append("?" if r == "gone" else "1" if r == "blocked" else "0")
+            if r not in ("blocked", "gone"):
                 problems.append(("api-not-blocked:%s.%s" % (row["iface"], row["name"]),
                                  "after the sequence %s.%s did not raise BlockedStateError (%s)" % (row["iface"], row["name"], r)))
         bits = "".join(bits)
+    # what the user still holds: the interface objects obtained before the sequence (and whatever
+    # a fresh fetch hands out afterwards); the device object itself is dropped and collected
+    bits2 = None
+    if case.get("drop") and env.atv is not None:
+        env.refetch()
+        outs.append(await env.do("x"))
+        bits2 = []
+        for m, row in enumerate(members):
+            if row["obj"] == 0:
+                bits2.append("?")
+                continue
+            results = [await env.call_member(m)]
+            results += [await env.call_member(m, via=obj) for j, obj in env.extra_refs if j == row["obj"]]
+            ok = all(r == "blocked" for r in results)
+            bits2.append("1" if ok else "0")
+            if env.premise and not ok:
+                problems.append(("api-not-blocked-after-drop:%s.%s" % (row["iface"], row["name"]),
+                                 "after close/loss the device object was dropped (collected: %s); %s.%s called through the %s "
+                                 "reference obtained earlier did not raise BlockedStateError (%s)" % (
+                                     env.device_collected, row["iface"], row["name"], row["iface"], results)))
+        bits2 = "".join(bits2)
     # close() again: same pending tasks, nothing re-closed.  A close() may propagate the
     # exception of the user's own handler (userRaised) only when it is the call that does the
     # closing; a close() of an already closed/lost device must simply return.
@@ -505,9 +577,9 @@ async def run_case(shared, case):
             if cur != 0 or k != kd0[0] or exc is not exc0:
                 problems.append(("notify:not-first", "the DeviceListener received report #%s (%s) but the first one reported was %s by protocol %d" % (cur, k, kd0, i0)))
     notified = ["%d%s" % (env.reports[c][0], env.reports[c][1]) if c is not None else "?" for c, _k, _e in env.notified]
-    pend = env.atv._pending_tasks
+    calls_made, pend = env.snapshot()
     obs = {
-        "outs": outs, "N": notified, "C": env.atv.calls_made, "K": list(env.close_log),
+        "outs": outs, "N": notified, "C": calls_made, "K": list(env.close_log), "B2": bits2, "collected": env.device_collected,
         "P": "-" if pend is None else "%d:%d" % (next((j for j, s in enumerate(env.sets) if s is pend), len(env.sets)), len(pend)),
         "B": bits, "R": 1 if env.escaped else 0, "I": list(env.inner_log), "escaped": env.escaped, "premise": env.premise,
         "problems": list(problems), "api_classes": api_classes, "session_closed": env.session.closed,
@@ -524,13 +596,20 @@ async def run_case(shared, case):
 
 def model_line(case):
     protos = ",".join("%d:%s" % (t, ".".join(k) if k else "-") for t, k in case["protos"])
-    return "seq %s %s %s" % (case["listener"], protos, ",".join(case["events"]) or "-")
+    events = list(case["events"]) + (["x"] if case.get("drop") else [])
+    return "seq %s %s %s" % (case["listener"], protos, ",".join(events) or "-")
 
 
 def canon_impl(obs):
     csv = lambda xs: ",".join(str(x) for x in xs) if xs else "-"
-    return "%s N=%s C=%d K=%s P=%s B=%s R=%d I=%s" % (csv(obs["outs"]), csv(obs["N"]), obs["C"], csv(obs["K"]), obs["P"],
-                                                       obs["B"] if obs["B"] is not None else "*", obs["R"], csv(obs["I"]))
+    return "%s N=%s C=%d K=%s P=%s B=%s D=%s R=%d I=%s" % (csv(obs["outs"]), csv(obs["N"]), obs["C"], csv(obs["K"]), obs["P"],
+                                                            obs["B"] if obs["B"] is not None else "*",
+                                                            obs.get("B2") if obs.get("B2") is not None else "*", obs["R"], csv(obs["I"]))
+
+
+def _mask(model_bits, impl_bits):
+    """members the harness could not call (object no longer held) are not compared"""
+    return "".join("?" if i == "?" else m for m, i in zip(model_bits, impl_bits))
 
 
 def canon_model(ans, obs):
@@ -538,9 +617,10 @@ def canon_model(ans, obs):
     if len(parts) != 9:
         return ans
     outs, n, c, k, p, b, _s, r, i = parts
-    if obs["B"] is None:      # not swept in this case
-        b = "B=*"
-    return " ".join([outs, n, c, k, p, b, r, i])
+    bits = b[2:]
+    b = "B=*" if obs["B"] is None else "B=" + _mask(bits, obs["B"])      # (None: not swept in this case)
+    d = "D=*" if obs.get("B2") is None else "D=" + _mask(bits, obs["B2"])  # after the drop the flags are what they were
+    return " ".join([outs, n, c, k, p, b, d, r, i])
 
 
 # ------------------------------------------------------------------------------ generators
@@ -593,7 +673,8 @@ def exhaustive_cases(shared, ctx):
                             count += 1
                             yield {"listener": lmode, "protos": pcfg,
                                    "reporters": DEFAULT_REPORTERS[:n], "events": ["s"] + with_probes(seq, probes),
-                                   "probe": 3, "sweep": length <= 3 or count % 4 == 0}
+                                   "probe": 3, "sweep": length <= 3 or count % 4 == 0,
+                                   "drop": length <= 2 or count % 8 == 0}
 
 
 def random_beh(rng, nmem, members):
@@ -643,7 +724,8 @@ def random_cases(shared, ctx, count):
             else:
                 events.append("p%d%s" % (rng.randrange(n), random_beh(rng, nmem, members)))
         lmode = rng.choice(["a", "a", "a", "n", "d"])
-        yield {"listener": lmode, "protos": protos, "reporters": reporters, "events": events, "probe": False}
+        yield {"listener": lmode, "protos": protos, "reporters": reporters, "events": events, "probe": False,
+               "drop": rng.random() < 0.5}
 
 
 # ------------------------------------------------------------------------------ run
@@ -733,8 +815,8 @@ def _run_cases(shared, cases):
                 obs = loop.run_until_complete(run_case(shared, case))
             except Exception as ex:  # the harness must survive changed code
                 obs = {"outs": ["harness-exception:" + type(ex).__name__ + ":" + str(ex)[:80]], "N": [], "C": -1, "K": [], "P": "?",
-                       "B": None, "R": 1, "I": [], "escaped": [], "premise": False, "problems": [], "api_classes": [],
-                       "session_closed": 0, "loop_errors": []}
+                       "B": None, "B2": None, "collected": None, "R": 1, "I": [], "escaped": [], "premise": False, "problems": [],
+                       "api_classes": [], "session_closed": 0, "loop_errors": []}
             results.append(obs)
     finally:
         try:
@@ -802,7 +884,7 @@ def _evaluate(ctx, shared, cases, judge=True):
         first = next((j for j, e in enumerate(core) if e[0] in "ru"), None)
         reentrant = any("~" in e for e in core) or any("~" in k for _t, ks in case["protos"] for k in ks)
         nontrivial = first is not None and (first < len(core) - 1 or reentrant)
-        ctx.case([case["listener"], case["protos"], case["reporters"], events], nontrivial,
+        ctx.case([case["listener"], case["protos"], case["reporters"], events, bool(case.get("drop"))], nontrivial,
                  sample={"listener": case["listener"], "protos": case["protos"], "events": core, "notified": obs["N"],
                          "outs": obs["outs"][:12], "inside_callbacks": obs["I"][:6]})
         ctx.note("protocols:%d" % len(case["protos"]))
@@ -820,11 +902,15 @@ def _evaluate(ctx, shared, cases, judge=True):
             ctx.note("report-propagated-user-exception")
         if obs["B"] is not None:
             ctx.note("swept-after-close")
+        if obs.get("B2") is not None:
+            ctx.note("device-dropped:" + ("collected" if obs.get("collected") else "still-referenced"))
+            if obs["premise"]:
+                ctx.note("swept-held-interfaces-after-drop")
         for c in obs["api_classes"]:
             ctx.note("open-api-result:" + c)
         impl, model = canon_impl(obs), canon_model(ans, obs)
         if impl != model:
-            ctx.disagree({k: case[k] for k in ("listener", "protos", "reporters", "events")}, impl, model, where="facade life cycle")
+            ctx.disagree({k: case[k] for k in ("listener", "protos", "reporters", "events", "drop") if k in case}, impl, model, where="facade life cycle")
         ctx.validated()
         if case["listener"] == "d":
             ctx.note("observation:gc-listener-runs")
@@ -833,7 +919,7 @@ def _evaluate(ctx, shared, cases, judge=True):
             continue
         if judge:
             for sig, what in obs["problems"]:
-                ctx.fail(sig, {k: case[k] for k in ("listener", "protos", "reporters", "events")},
+                ctx.fail(sig, {k: case[k] for k in ("listener", "protos", "reporters", "events", "drop") if k in case},
                          {"outs": obs["outs"], "notified": obs["N"], "close_log": obs["K"], "pending": obs["P"], "inside_callbacks": obs["I"]},
                          "property C09 (blocked after close/loss — inside the notification callback too and whether or not it "
                          "raises —, close() idempotent, pushes stop, at most one notification: the first)", what)
@@ -892,7 +978,8 @@ def fixed_cases(shared):
             # the PushListener handler closes the device / raises from inside a push callback
             fixed.append({"listener": lmode, "protos": [[1, ["c" + reent]], [0, []]], "reporters": reps[:2],
                           "events": ["s", "p0~%s+u+%s+u!" % (held, held), "p0", top, "u", "p0!", "r1l1"], "probe": False})
-    return fixed
+    # every shape again with the device object dropped at the end (interface references retained)
+    return fixed + [dict(c, drop=True) for c in fixed]
 
 
 def run(ctx, only=None):
